@@ -104,9 +104,9 @@ def obligations():
         KModelOb('O9.1-set-scripts', 'ufs', 'set_scripts_q', 'Storage::update_filter_scripts (real text): resulting script set = documented replace / upsert / '
                  'remove with the given numbers; pending matched-block records discarded; MIN_FILTERED <= recorded number of EVERY script still '
                  'registered; empty partial/delete changes nothing; genesis filtered iff a given script starts at 0', ex_ufs,
-                 '<=2 of 3 scripts stored with arbitrary numbers, arbitrary MIN_FILTERED, <=1 pending record, any command with <=2 scripts',
+                 '<=2 of 3 scripts stored with arbitrary numbers, arbitrary MIN_FILTERED, <=1 pending record, any command with <=1 script (thorough: <=2 incl. duplicates)',
                  cuts=CUTS, timeout=2400, mem_gb=16, tiers=('quick',), min_covers=3, weight=8),
-        KModelOb('O9.1-set-scripts-t', 'ufs', 'set_scripts_t', 'as O9.1 with <=2 pending records', ex_ufs, '<=2 pending records', cuts=CUTS,
+        KModelOb('O9.1-set-scripts-t', 'ufs', 'set_scripts_t', 'as O9.1 with <=2 scripts in the command (duplicates included) and <=2 pending records', ex_ufs, '<=2 pending records', cuts=CUTS,
                  timeout=3300, mem_gb=24, tiers=('thorough',), min_covers=3, weight=9),
         KModelOb('O9.2-block-number', 'ufs', 'raise_numbers', 'update_block_number(n) raises recorded numbers below n to exactly n and touches nothing else',
                  ex_ufs, '<=2 scripts, arbitrary numbers', cuts=CUTS, timeout=1200, mem_gb=10, min_covers=1, weight=3),
